@@ -754,7 +754,7 @@ func (m *mon) c09() {
 
 // C10 — cancel / purge / queue close
 func (m *mon) c10() {
-	if !m.props["C10"] {
+	if !m.props["C10"] && !m.props["C08"] && !m.props["C05"] {
 		return
 	}
 	// a Purge removes what it is handed, nothing else: a job accepted around a Purge that the queue
@@ -775,6 +775,10 @@ func (m *mon) c10() {
 		for _, s := range m.e.subs {
 			if s.accepted && len(s.tEnter) == 0 && !m.cancelledBeforeStart(s) && inflight == 0 {
 				m.add("C10", "purge-lost", "job d%d (q%d) was accepted around a Purge; at rest it was neither handed to the purger nor dispatched nor cancelled, and nothing is in flight", s.data, s.q)
+				if s.batch != nil {
+					m.add("C08", "purge-lost", "item d%d of batch b%d was accepted around a Purge and then neither run nor closed: the batch never completes", s.data, s.batch.idx)
+					m.add("C05", "batch-wait-blocked", "item d%d of batch b%d was accepted around a Purge and then neither run nor closed: Wait on the batch never returns", s.data, s.batch.idx)
+				}
 				break
 			}
 		}
